@@ -18,7 +18,7 @@ def check(run, replay, prop):
     else:
         run.tlc("NodeOps.tla", "mc.cfg", workers=8, timeout=1500,
                 cfg_text=MC.format(docs="{1,2}", maxver=3, maxval=1, steps=8 if thorough else 6, anytime="TRUE", body="INVARIANTS AddedFieldsStartNull\nPROPERTIES SchemaOpsKeepData RestartInvisible"), label="MC_NodeOps")
-        for tag, steps, n, anytime in (("a", 12, 300 if thorough else 40, "FALSE"), ("b", 20, 150 if thorough else 20, "FALSE"), ("idx", 12, 40 if thorough else 8, "TRUE")):
+        for tag, steps, n, anytime in (("a", 12, 600 if thorough else 120, "FALSE"), ("b", 20, 300 if thorough else 60, "FALSE"), ("idx", 12, 80 if thorough else 24, "TRUE")):
             out = os.path.join(run.tmp, "node-%s.ndjson" % tag)
             run.tlc("NodeOps_gen.tla", "gen_%s.cfg" % tag, mode="simulate", workers=1, sim="num=%d" % n, extra=["-depth", str(steps)], timeout=900,
                     env={"VERIF_OUT": out}, cfg_text=MC.format(docs="{1,2,3}", maxver=4, maxval=2, steps=steps, anytime=anytime, body="ACTION_CONSTRAINT ExportLeaves"), label="GEN_NodeOps_" + tag)
